@@ -13,6 +13,10 @@
 (*           in the log could run)                                         *)
 (*   Final   what is on disk afterwards (bytes compared by the driver /    *)
 (*           pydec.pwfile_check with the old file and the reference)       *)
+(* A case without a system call log (traced = FALSE: SIGKILL at a random   *)
+(* instant of an untraced child) is judged on the real directory alone:    *)
+(* killed => destination complete old or complete new; returned ok =>      *)
+(* complete new.                                                           *)
 (* The disk is replayed with SaveAtomic's own file-system operators and    *)
 (* the property is evaluated with SaveAtomic's own predicates:             *)
 (*   NeverTornD after every system call (hence for every observer and at   *)
@@ -91,7 +95,10 @@ ReturnStep(e) ==
   LET r == e.outcome IN
   /\ ret' = r /\ pc' = "done"
   /\ UNCHANGED <<cfg, disk, sink, werr>>
-  /\ IF cfg.mode = "path"
+  /\ IF cfg.mode = "path" /\ ~cfg.traced        \* no system call log (kill at a random instant that came too late):
+     THEN IF ReturnsD(r) THEN UNCHANGED mark     \* the disk is judged at Final, on the real directory
+          ELSE mark' = "violation" /\ Mismatch(l, <<"impl", "ErrorNotPanic", cfg.inst, "returned", r>>)
+     ELSE IF cfg.mode = "path"
      THEN IF ReturnsD(r) /\ AllOrNothingD(r, disk, cfg) THEN UNCHANGED mark
           ELSE IF r = "ok" /\ mark \in {"C13-KF1", "C13-KF4"} /\ Incomplete(disk.dest, cfg) THEN UNCHANGED mark
           ELSE IF r = "ok" /\ mark = "C13-KF5" /\ KFOn("C13-KF4") /\ TrigKF4 /\ Incomplete(disk.dest, cfg)
@@ -104,7 +111,8 @@ ReturnStep(e) ==
      ELSE IF ReturnsD(r) /\ (sink.bad => r = "err") THEN UNCHANGED mark
           ELSE IF r = "panic" /\ KFOn("C13-KF2") /\ TrigKF2sink THEN UNCHANGED mark /\ KFHit("C13-KF2", l)
           ELSE /\ mark' = "violation"
-               /\ Mismatch(l, <<"impl", "ErrorNotPanic", cfg.inst, "writer failed", sink.bad, "returned", r>>)
+               /\ Mismatch(l, <<"impl", IF ReturnsD(r) THEN "SinkErrorReturned" ELSE "ErrorNotPanic", cfg.inst,
+                                "writer failed", sink.bad, "returned", r>>)
 
 FinalStep(e) ==
   /\ UNCHANGED <<cfg, disk, sink, pc, ret, werr, mark>>
@@ -117,8 +125,11 @@ FinalStep(e) ==
           IN IF ok THEN TRUE
              ELSE Mismatch(l, <<"impl", "final state", cfg.inst, "destination expected", wd, disk.dest.n, "observed", e.dest,
                                 e.destlen, "temporary expected", wt, disk.tmp.n, "observed", e.tmp, e.tmplen>>)
-     ELSE IF e.dest \in {ClassOf(Dest0(cfg), cfg), "new"} THEN TRUE
-          ELSE Mismatch(l, <<"impl", "NeverTorn", cfg.inst, "after a kill the destination is", e.dest, e.destlen>>)
+     ELSE IF ret = "ok"
+          THEN IF e.dest = "new" THEN TRUE
+               ELSE Mismatch(l, <<"impl", "AllOrNothing", cfg.inst, "returned ok, the destination is", e.dest, e.destlen>>)
+          ELSE IF e.dest \in {ClassOf(Dest0(cfg), cfg), "new"} THEN TRUE
+               ELSE Mismatch(l, <<"impl", "NeverTorn", cfg.inst, "after a kill the destination is", e.dest, e.destlen>>)
 
 GenOk(e) ==
   CASE e.a = "Begin" -> e.size > 0 /\ e.kind \in {"path", "sink"} /\ e.inst \in {"xlsx", "light", "csv", "pw", "pwlight", "setpw"}
